@@ -360,13 +360,16 @@ def replay_cli_equiv(rp):
     try:
         ol = extract.repo_module("oneliner")
         C = cfgm()
-        progs = ["x = 1\nprint(x)\n", "def f(a):\n    if a:\n        return 1\n    return 2\nprint(f(0))\n"]
+        progs = ["x = 1\nprint(x)\n", "def f(a):\n    if a:\n        return 1\n    return 2\nprint(f(0))\n",
+                 # characters that str.splitlines() treats as line boundaries but the tokenizer does not, non-ASCII text, no final newline
+                 "s = 'a\x0cb\x1cc\x1dd\x1ee\x85f\u2028g\u2029h'\nt = 'h\u00e9 \u4e2d \U0001f600'\nprint(len(s), t)"]
         optsets = [[], ["-Cunparser=oneliner"], ["-Cexpr_wrapper=list", "-Cif_style=short_circuit"], ["-Cunparser=oneliner", "-Cunparser=ast.unparse"],
                    ["--unparser", "oneliner"]]
         env = dict(os.environ, PYTHONPATH=extract.REPO, PYTHONWARNINGS="ignore")
         for prog, opts, to_file in itertools.product(progs, optsets, (False, True)):
             src = os.path.join(d, "in.py")
-            open(src, "w").write(prog)
+            with open(src, "w", encoding="utf8", newline="") as fh:
+                fh.write(prog)
             cfg = C.Configs()
             it = iter(opts)
             for o in it:
@@ -378,8 +381,8 @@ def replay_cli_equiv(rp):
             want = ol.convert_code_string(prog, configs=cfg)
             out = os.path.join(d, "out.txt")
             argv = [sys.executable, "-m", "oneliner", src] + opts + (["-o", out] if to_file else [])
-            p = subprocess.run(argv, capture_output=True, text=True, env=env, cwd=d)
-            got = open(out).read() if to_file and os.path.exists(out) else p.stdout[:-1] if p.stdout.endswith("\n") else p.stdout
+            p = subprocess.run(argv, capture_output=True, text=True, encoding="utf8", env=dict(env, PYTHONIOENCODING="utf8"), cwd=d)
+            got = open(out, encoding="utf8", newline="").read() if to_file and os.path.exists(out) else p.stdout[:-1] if p.stdout.endswith("\n") else p.stdout
             if p.returncode != 0 or norm(got) != norm(want):
                 return dict(reproduced=True, argv=argv[3:], returncode=p.returncode, cli_text=got[:300], api_text=want[:300], stderr=p.stderr[-300:])
             if to_file:
@@ -394,3 +397,6 @@ REPLAY = {"cli": replay_cli, "cli-equiv": replay_cli_equiv}
 
 from suites import thorough as _th
 GROUPS["thorough:cli-equivalence"] = _th.bounded_from_replay("bounded/cli-vs-api", replay_cli_equiv)
+
+# bounded stand-ins for undecided obligations (olvc/oblig.py::main_check)
+STANDINS = {"*": [dict(kind="cli-equiv")]}
